@@ -38,6 +38,7 @@ StepVM(s0) ==
     [] op = "UNPLUS" -> PushV([n EXCEPT !.stack = Pop(s, 1)], s, UnPlus(Top(s)))
     [] op = "NOT" -> [n EXCEPT !.stack = Append(Pop(s, 1), Not(Top(s)))]
     [] op = "JUMP" -> [n EXCEPT !.pc = s.pc + ins.len + ins.a]
+    [] op = "LOOP" -> [n EXCEPT !.pc = s.pc + ins.len - ins.a]
     [] op = "JFALSE" -> IF Falsey(Top(s)) THEN [n EXCEPT !.pc = s.pc + ins.len + ins.a] ELSE n
     [] op = "POP" -> [n EXCEPT !.stack = Pop(s, 1)]
     [] op = "POPN" -> [n EXCEPT !.stack = Pop(s, ins.a)]
